@@ -127,7 +127,7 @@ Lemma scalar_and_array_paths_agree x11 x22 x33 x12 x13 x23 :
   eqa_signed_mises_trace x11 x22 x33 x12 x13 x23 = eqs_signed_mises_trace x11 x22 x33 x12 x13 x23.
 Proof.
   assert (Hm : eqa_mises x11 x22 x33 x12 x13 x23 = eqs_mises x11 x22 x33 x12 x13 x23).
-  { unfold eqa_mises, eqs_mises. cbv zeta. first [reflexivity | f_equal; ring]. }
+  { unfold eqa_mises, eqs_mises. cbv zeta. first [reflexivity | f_equal; first [ring | field]]. }
   assert (Hs : eqa__sign_trace x11 x22 x33 = eqs__sign_trace x11 x22 x33).
   { unfold eqa__sign_trace, eqs__sign_trace. cbv zeta. first [reflexivity | rewrite !sgnR_fix0; reflexivity]. }
   split; [exact Hm|]. split; [exact Hs|].
@@ -146,7 +146,7 @@ Lemma radicand_nonneg a : 0 <= I1 a ^ 2 - 3 * I2 a.
 Proof. unfold I1, I2. apply rad_nonneg. Qed.
 
 Lemma mises_t_sqrt a : mises_t a = sqrt (I1 a ^ 2 - 3 * I2 a).
-Proof. unfold mises_t, eqs_mises, I1, I2. cbv zeta. f_equal. ring. Qed.
+Proof. unfold mises_t, eqs_mises, I1, I2. cbv zeta. f_equal. first [ring | field]. Qed.
 
 Theorem mises_sq_is_invariants a :
   0 <= mises_t a /\ mises_t a ^ 2 = I1 a ^ 2 - 3 * I2 a /\
